@@ -513,7 +513,18 @@ pub fn source(family: &Family) -> String {
             for i in 0..n {
                 let _ = writeln!(out, "fn rjf{i}(x: f32) -> f32 {{\n    return x + rj{i}[0].x;\n}}");
             }
-            let _ = writeln!(out, "@compute @workgroup_size(1)\nfn cs_main() {{\n    var t = 0.0;");
+            // a deep diamond of helpers on top: the rejection must not walk it path by path
+            let depth = n.min(40);
+            let _ = writeln!(out, "fn rjd0(x: f32) -> f32 {{\n    return x + rj0[1].y;\n}}");
+            for level in 1..=depth {
+                let _ = writeln!(
+                    out,
+                    "fn rjd{level}(x: f32) -> f32 {{\n    return rjd{}(x) + rjd{}(x * 0.5);\n}}",
+                    level - 1,
+                    level - 1
+                );
+            }
+            let _ = writeln!(out, "@compute @workgroup_size(1)\nfn cs_main() {{\n    var t = rjd{depth}(1.0);");
             for i in 0..n {
                 let _ = writeln!(out, "    t = t + rjf{i}(t);");
             }
@@ -1207,6 +1218,39 @@ pub fn all_cases(seed: u64, n_random: u64) -> Vec<(Family, bool)> {
     cases
 }
 
+/// A batch child whose stdout is drained on a thread from the start, so that all children run in
+/// parallel whatever order the parent looks at them in.
+struct Draining {
+    child: std::process::Child,
+    reader: std::thread::JoinHandle<Vec<u8>>,
+}
+
+struct Finished {
+    status: std::process::ExitStatus,
+    stdout: Vec<u8>,
+}
+
+impl Draining {
+    fn new(mut child: std::process::Child) -> Self {
+        let stdout = child.stdout.take();
+        let reader = std::thread::spawn(move || {
+            let mut bytes = Vec::new();
+            if let Some(mut s) = stdout {
+                use std::io::Read as _;
+                let _ = s.read_to_end(&mut bytes);
+            }
+            bytes
+        });
+        Draining { child, reader }
+    }
+
+    fn finish(mut self) -> std::io::Result<Finished> {
+        let stdout = self.reader.join().unwrap_or_default();
+        let status = self.child.wait()?;
+        Ok(Finished { status, stdout })
+    }
+}
+
 struct BatchOutcome {
     results: Vec<CaseResult>,
     /// (case index, description) for children that were killed by the CPU limit
@@ -1238,18 +1282,16 @@ fn run_batches(seed: u64, n_random: u64, total: u64) -> Result<BatchOutcome, Str
             .stderr(std::process::Stdio::null())
             .spawn()
             .map_err(|e| format!("spawn batch: {e}"))?;
-        children.push((lo, hi, child));
+        children.push((lo, hi, Draining::new(child)));
         lo = hi;
     }
     let mut outcome = BatchOutcome {
         results: Vec::new(),
         backstop: Vec::new(),
     };
-    let mut queue: std::collections::VecDeque<(u64, u64, std::process::Child)> = children.into();
+    let mut queue: std::collections::VecDeque<(u64, u64, Draining)> = children.into();
     while let Some((lo, hi, child)) = queue.pop_front() {
-        let out = child
-            .wait_with_output()
-            .map_err(|e| format!("wait batch: {e}"))?;
+        let out = child.finish().map_err(|e| format!("wait batch: {e}"))?;
         let text = String::from_utf8_lossy(&out.stdout);
         let mut started: Option<u64> = None;
         let mut done = HashSet::new();
@@ -1293,7 +1335,7 @@ fn run_batches(seed: u64, n_random: u64, total: u64) -> Result<BatchOutcome, Str
                             .stderr(std::process::Stdio::null())
                             .spawn()
                             .map_err(|e| format!("respawn batch: {e}"))?;
-                        queue.push_back((i + 1, hi, child));
+                        queue.push_back((i + 1, hi, Draining::new(child)));
                     }
                 }
                 _ => {
@@ -1356,7 +1398,7 @@ pub fn main(tier: Tier) -> i32 {
         .and_then(|s| s.parse().ok())
         .unwrap_or(match tier {
             Tier::Quick => 300,
-            Tier::Thorough => 40_000,
+            Tier::Thorough => 300_000,
         });
     let cases = all_cases(seed, n_random);
     let total = cases.len() as u64;
